@@ -104,6 +104,7 @@ var c07Corpus = []corpusCase{
 	{"D25-empty-payload", FedInput{Spec: FixedFed(), StoreSeed: 5, Query: `{ allUsers { firstName lastName } }`, Faults: []FaultSpec{{Service: "B", MatchID: "u2", Kind: "empty"}}}, ""},
 	{"D24-wrong-shape-dependent", FedInput{Spec: FixedFed(), StoreSeed: 5, Query: `{ me { firstName favorite { url likes } } }`, Faults: []FaultSpec{{Service: "B", MatchID: "u1", Kind: "wrong-shape"}}}, "index panic before the repair"},
 	{"D36-errors-with-partial-data", FedInput{Spec: FixedFed(), StoreSeed: 5, Query: `{ allUsers { firstName lastName } }`, Faults: []FaultSpec{{Service: "A", MatchID: "root", Kind: "gqlerrors+data"}}}, ""},
+	{"D59-node-parent-empty-payload", FedInput{Spec: FixedFed(), StoreSeed: 5, Query: `query($a: ID!) { node(id: $a) { id ... on User { lastName } } }`, Vars: map[string]interface{}{"a": "u1"}, Faults: []FaultSpec{{Service: "B", MatchID: "u1", Kind: "empty"}}}, "an answer without the node key under a Node parent was swallowed by the first version of the D25 repair"},
 	{"KF-root-wrong-shape", FedInput{Spec: FixedFed(), StoreSeed: 5, Query: `{ me { firstName } }`, Faults: []FaultSpec{{Service: "A", MatchID: "root", Kind: "wrong-shape"}}}, "KF"},
 	{"KF-root-empty", FedInput{Spec: FixedFed(), StoreSeed: 5, Query: `{ me { firstName } }`, Faults: []FaultSpec{{Service: "A", MatchID: "root", Kind: "empty"}}}, "KF"},
 }
